@@ -626,3 +626,20 @@ Lemma merge_setup_refuted :
   evaluated TsInst.sst TsInst.tgt TsInst.targets TsInst.sstep TsInst.sid TsInst.refresh TsInst.setup 2 = [TsInst.setup] /\
   ~ TsInst.gamma TsInst.setup (1, 100).
 Proof. split; [exact ts_step_complete | exact ts_refuted]. Qed.
+
+(* ================================================================== the targets run from a frontier state *)
+(* (account, function) pairs run by _compute_frontier / run_target_contract: for every resolved target
+   account, the functions selected for ITS address among the methods of its contract *)
+Lemma frontier_targets_in :
+  forall tc ec tsel esel deployed test (methods_of : Z -> list method) a m,
+    In (a, m) (frontier_targets tc ec tsel esel deployed test methods_of) <->
+    In a (resolve_target_contracts tc ec tsel deployed test) /\ In m (methods_of a) /\
+    selector_selected tsel esel a test m = true.
+Proof.
+  intros tc ec tsel esel deployed test methods_of a m.
+  unfold frontier_targets, run_target_functions, resolve_target_selectors. rewrite in_flat_map. split.
+  - intros [x [Hx Hin]]. apply in_map_iff in Hin. destruct Hin as [y [E Hy]].
+    inversion E; subst. apply filter_In in Hy. tauto.
+  - intros [Ha [Hm Hs]]. exists a. split; [exact Ha |]. apply in_map_iff. exists m.
+    split; [reflexivity |]. apply filter_In. auto.
+Qed.
